@@ -21,31 +21,46 @@ def S(*names):
 
 
 # ------------------------------------------------------------------------------ model checking
-def _model_check(ctx):
+def _par(jobs, n=3):
+    """run independent TLC jobs side by side; returns their results in order"""
+    from concurrent.futures import ThreadPoolExecutor
+    with ThreadPoolExecutor(max_workers=n) as ex:
+        futs = [ex.submit(j) for j in jobs]
+        return [f.result() for f in futs]
+
+
+def _model_check_jobs(ctx, out):
     quick = ctx.tier == "quick"
     full3 = {"S1": ALLD, "S2": ALLDN, "S3": ALLDN}
     two = {"S1": ALLD, "S2": ALLDN, "S3": S("none")}
     chain = {"S1": S("rAB", "rBA"), "S2": S("rAE", "rBE", "sA"), "S3": S("sA", "sB"), "Sorted": "FALSE"}
-    out = {}
+    chain1 = {"S1": S("rAB"), "S2": S("rAE"), "S3": S("sB"), "Sorted": "FALSE"}
+    jobs = []
     # the design WITH the point check: every invariant, every interleaving, every configuration
     plans = [("2slots", two), ("3slots_chain", chain)] if quick else [("3slots", full3)]
     for nm, c in plans:
-        r = ctx.tlc_expect_ok("Handshake", "MC_Handshake.cfg", name="mc_guarded_" + nm, workers=4,
-                              consts=dict(c, CheckLowOrder="TRUE"), timeout=1200)
-        out["guarded_" + nm] = {"distinct": r.distinct, "generated": r.generated, "ok": True}
+        def g(nm=nm, c=c):
+            r = ctx.tlc_expect_ok("Handshake", "MC_Handshake.cfg", name="mc_guarded_" + nm, workers=2 if quick else 4,
+                                  consts=dict(c, CheckLowOrder="TRUE"), timeout=1500)
+            out["guarded_" + nm] = {"distinct": r.distinct, "generated": r.generated, "ok": True}
+        jobs.append(g)
+
     # the design WITHOUT it (what the code does as long as the finding is open): TLC must find the attacks
-    r = ctx.tlc("Handshake", "MC_Handshake.cfg", name="mc_unguarded_resp", workers=4,
-                consts=dict(two if quick else full3, CheckLowOrder="FALSE"),
-                timeout=1200, allow_violation=True, count=False)
-    out["unguarded_RespAuth"] = {"violated": r.violated, "distinct": r.distinct, "depth": r.depth}
-    if r.violated not in ("RespAuth", "Agreement"):
-        raise vf.Infra("unguarded model: expected a RespAuth counterexample, got %r" % r.violated)
-    r = ctx.tlc("Handshake", "MC_Handshake_ReqAuth.cfg", name="mc_unguarded_req", workers=4,
-                consts=dict(chain if quick else full3, CheckLowOrder="FALSE"), timeout=1200, allow_violation=True, count=False)
-    out["unguarded_ReqAuth"] = {"violated": r.violated, "distinct": r.distinct, "depth": r.depth}
-    if r.violated != "ReqAuth":
-        raise vf.Infra("unguarded model: expected a ReqAuth counterexample, got %r" % r.violated)
-    ctx.extra["model_checking"] = out
+    def u1():
+        r = ctx.tlc("Handshake", "MC_Handshake.cfg", name="mc_unguarded_resp", workers=2,
+                    consts=dict(two if quick else full3, CheckLowOrder="FALSE"),
+                    timeout=1500, allow_violation=True, count=False)
+        out["unguarded_RespAuth"] = {"violated": r.violated, "distinct": r.distinct, "depth": r.depth}
+        if r.violated != "RespAuth":
+            raise vf.Infra("unguarded model: expected a RespAuth counterexample, got %r" % r.violated)
+
+    def u2():
+        r = ctx.tlc("Handshake", "MC_Handshake_ReqAuth.cfg", name="mc_unguarded_req", workers=2,
+                    consts=dict(chain1 if quick else full3, CheckLowOrder="FALSE"), timeout=1500, allow_violation=True, count=False)
+        out["unguarded_ReqAuth"] = {"violated": r.violated, "distinct": r.distinct, "depth": r.depth}
+        if r.violated != "ReqAuth":
+            raise vf.Infra("unguarded model: expected a ReqAuth counterexample, got %r" % r.violated)
+    return jobs + [u1, u2]
 
 
 # ---------------------------------------------------------------------------------- generation
@@ -95,23 +110,36 @@ def _gen(ctx):
         fam[name] = out
 
     base = {"CheckLowOrder": "FALSE", "Junk": "TRUE"}
+    mc = {}
+    res = {}
+
     # every behaviour of two sessions (all configurations, at most one corrupted frame)
-    r = ctx.tlc("GenHandshake", "Gen_Handshake.cfg", name="gen_2slots", workers=4,
-                consts=dict(base, S1=ALLD, S2=ALLDN, S3=S("none"), MaxJunk="1", AttackOnly="FALSE"), timeout=900, heap="6g")
-    add("two", r.printed.get("SCRIPT", []))
+    def g2():
+        res["two"] = ctx.tlc("GenHandshake", "Gen_Handshake.cfg", name="gen_2slots", workers=2,
+                             consts=dict(base, S1=ALLD, S2=ALLDN, S3=S("none"), MaxJunk="1", AttackOnly="FALSE"),
+                             timeout=900, heap="6g").printed.get("SCRIPT", [])
+
+    # three sessions, quick: attack traces of the unguarded model in the configurations that chain sessions
+    def g3q():
+        res["attack3"] = ctx.tlc("GenHandshake", "Gen_Handshake.cfg", name="gen_3slots_chain", workers=2,
+                                 consts=dict(base, S1=S("rAB"), S2=S("rAE", "rBE"), S3=S("sA", "sB"), Sorted="FALSE",
+                                             MaxJunk="0", AttackOnly="TRUE"), timeout=900, heap="6g").printed.get("SCRIPT", [])
+
+    # three sessions, thorough: every behaviour of every configuration
+    def g3t():
+        hs = ctx.tlc("GenHandshake", "Gen_Handshake.cfg", name="gen_3slots", workers=4,
+                     consts=dict(base, S1=ALLD, S2=ALLDN, S3=ALLDN, MaxJunk="1", AttackOnly="FALSE"),
+                     timeout=2400, heap="12g").printed.get("SCRIPT", [])
+        res["attack3"] = [h for h in hs if h.get("attack")]
+        res["three"] = [h for h in hs if not h.get("attack")]
+    _par(_model_check_jobs(ctx, mc) + [g2, g3q if quick else g3t], n=3 if quick else 2)
+    ctx.extra["model_checking"] = mc
+    add("two", res["two"])
     if quick:
-        # three sessions: attack traces of the unguarded model in the configurations that chain sessions
-        r = ctx.tlc("GenHandshake", "Gen_Handshake.cfg", name="gen_3slots_chain", workers=4,
-                    consts=dict(base, S1=S("rAB"), S2=S("rAE", "rBE"), S3=S("sA", "sB"), Sorted="FALSE", MaxJunk="0", AttackOnly="TRUE"),
-                    timeout=900, heap="6g")
-        add("attack3", r.printed.get("SCRIPT", []), limit=600)
+        add("attack3", res["attack3"], limit=600)
     else:
-        r = ctx.tlc("GenHandshake", "Gen_Handshake.cfg", name="gen_3slots", workers=4,
-                    consts=dict(base, S1=ALLD, S2=ALLDN, S3=ALLDN, MaxJunk="1", AttackOnly="FALSE"),
-                    timeout=1500, heap="10g")
-        hs = r.printed.get("SCRIPT", [])
-        add("attack3", [h for h in hs if h.get("attack")], limit=8000)
-        add("three", [h for h in hs if not h.get("attack")], limit=30000)
+        add("attack3", res["attack3"], limit=2500)
+        add("three", res["three"], limit=8000)
     return fam
 
 
@@ -159,6 +187,8 @@ def _failing(fin):
                 bad.append(("resp", s))
         if s["role"] == "rsp" and s["ret"] == "ok" and len(s["in"]) == 3 and s["in"][2] == "I:ack-":
             bad.append(("ack", s))
+        if s["oeh"] != "-" and any(t is not s and t["oeh"] == s["oeh"] for t in S_):
+            bad.append(("fresh", s))
         if s["role"] == "rsp" and s["ret"] == "ok" and s["key"] == "-":
             bad.append(("nokey", s))
         if s["role"] == "req" and s["ret"] == "ok" and s["target"] != "E":
@@ -167,12 +197,10 @@ def _failing(fin):
     return bad
 
 
-MON_FIELDS = ("role", "owner", "target", "ret", "key", "oe", "pe", "s3", "s4", "in")
+MON_FIELDS = ("role", "owner", "target", "ret", "key", "oe", "oeh", "pe", "s3", "s4", "in")
 
 
-def _validate(ctx, name, blocks, tolerate, max_rejects=3):
-    """TLC evaluates the property monitor on the fin record of every run (one line per run).
-    Rejected runs are cut out and the rest is validated again.  Returns (accepted, rejects)."""
+def _validate_chunk(ctx, name, blocks, tolerate, max_rejects):
     cur = list(blocks)
     rejects = []
     d = ctx.sub("val_" + name)
@@ -197,6 +225,21 @@ def _validate(ctx, name, blocks, tolerate, max_rejects=3):
     return len(cur), rejects
 
 
+def _validate(ctx, name, blocks, tolerate, max_rejects=3, chunk=15000):
+    """TLC evaluates the property monitor on the fin record of every run (one line per run), in
+    chunks validated by up to four TLC processes side by side.  Rejected runs are cut out and the
+    rest of their chunk is validated again.  Returns (accepted, rejects)."""
+    chunks = [blocks[k:k + chunk] for k in range(0, len(blocks), chunk)]
+    if len(chunks) <= 1:
+        return _validate_chunk(ctx, name, blocks, tolerate, max_rejects)
+    from concurrent.futures import ThreadPoolExecutor
+    with ThreadPoolExecutor(max_workers=4) as ex:
+        futs = [ex.submit(_validate_chunk, ctx, "%s_c%d" % (name, k), c, tolerate, max_rejects) for k, c in enumerate(chunks)]
+        res = [f.result() for f in futs]
+    rejects = [r for _, rj in res for r in rj]
+    return sum(a for a, _ in res), rejects[:max(max_rejects, 1)] if len(rejects) > max_rejects else rejects
+
+
 def _run(ctx, replay=None):
     t0 = time.time()
     ov = ctx.overlay({PKG: FILES})
@@ -204,7 +247,6 @@ def _run(ctx, replay=None):
         rp = json.load(open(replay))
         scripts = [rp["script"]]
     else:
-        _model_check(ctx)
         fam = _gen(ctx)
         scripts = _assign_variants(ctx, fam)
         ctx.extra["bounds"] = {"scripts_per_family": {k: len(v) for k, v in fam.items()}, "sessions": "<=3",
@@ -331,43 +373,53 @@ def _run(ctx, replay=None):
                       technique="TLA+ spec Handshake.tla (Dolev-Yao intruder, degenerate point) model-checked by TLC with and without the point check; TLC-generated attack and relay scripts executed by a concrete intruder against the real RequestUsingReaderWriter/ResponseUsingReaderWriter; recorded returns checked by TLC against the property monitor MonHandshake.tla (verdict) and the full spec TraceHandshake.tla (conformance/drift)")
 
 
-def _conformance_with_resets(ctx, blocks, resets):
-    res = {}
+def _conf_chunk(ctx, name, blocks, resets, val):
+    """full-spec conformance of one chunk of step-by-step recordings; returns (conformant, drift)"""
+    left = list(blocks)
+    drift = []
+    rounds = 0
+    d = ctx.sub("conf_" + name)
+    while left and rounds < 3:
+        flat, index = [], []
+        for bid, evs in left:
+            index.append((len(flat), bid))
+            flat.append({"ev": "reset", "id": bid, "d": resets[bid]["d"]})
+            flat.extend(evs)
+        tp = os.path.join(d, "t%d.ndjson" % rounds)
+        vf.write_ndjson(tp, flat)
+        ok, info = ctx.validate_trace(CONF[0], CONF[1], tp, name="conf_%s_%d" % (name, rounds),
+                                      consts={"CheckLowOrder": val}, strict=True, timeout=1200)
+        if ok:
+            break
+        rounds += 1
+        if "high" not in info:
+            raise vf.Infra("conformance spec broke: %s" % info)
+        bi = max(i for i, (start, _) in enumerate(index) if start <= info["high"])
+        drift.append({"block": left[bi][0], "line": info.get("line"), "impl_checkLowOrder": val})
+        left = left[:bi] + left[bi + 1:]
+    return (len(left) if rounds < 3 else 0), drift
+
+
+def _conformance_with_resets(ctx, blocks, resets, chunk=2500):
+    from concurrent.futures import ThreadPoolExecutor
     # which Impl value to try first: did any recorded session go on after a degenerate hello?
     went_on = any(e.get("ev") == "hello" and e.get("x") == "low" and not e.get("c") and e.get("out") == "frame"
                   for _, evs in blocks for e in evs)
     order = ("FALSE", "TRUE") if went_on else ("TRUE", "FALSE")
+    chunks = [blocks[k:k + chunk] for k in range(0, len(blocks), chunk)]
+    res = {}
     for val in order:
-        left = list(blocks)
-        drift = []
-        rounds = 0
-        while left and rounds < 3:
-            flat, index = [], []
-            for bid, evs in left:
-                index.append((len(flat), bid))
-                flat.append({"ev": "reset", "id": bid, "d": resets[bid]["d"]})
-                flat.extend(evs)
-            d = ctx.sub("conf_" + val)
-            tp = os.path.join(d, "t%d.ndjson" % rounds)
-            vf.write_ndjson(tp, flat)
-            ok, info = ctx.validate_trace(CONF[0], CONF[1], tp, name="conf_%s_%d" % (val, rounds),
-                                          consts={"CheckLowOrder": val}, strict=True, timeout=1200)
-            if ok:
-                break
-            rounds += 1
-            if "high" not in info:
-                raise vf.Infra("conformance spec broke: %s" % info)
-            bi = max(i for i, (start, _) in enumerate(index) if start <= info["high"])
-            drift.append({"block": left[bi][0], "line": info.get("line"), "impl_checkLowOrder": val})
-            left = left[:bi] + left[bi + 1:]
-        res[val] = (len(left) if rounds < 3 else 0, drift)
-        if len(drift) < 3:
+        with ThreadPoolExecutor(max_workers=4) as ex:
+            futs = [ex.submit(_conf_chunk, ctx, "%s_c%d" % (val, k), c, resets, val) for k, c in enumerate(chunks)]
+            out = [f.result() for f in futs]
+        res[val] = (sum(a for a, _ in out), [d for _, dr in out for d in dr])
+        if len(res[val][1]) < 3:
             break   # (nearly) everything conforms with this value; the other one is not tried
     best = min(res, key=lambda v: (len(res[v][1]), v != order[0]))
     ctx.extra["impl_checkLowOrder_observed"] = best
     ctx.extra["conformant_traces"] = res[best][0]
     ctx.extra["conformance_blocks"] = len(blocks)
-    for dr in res[best][1]:
+    for dr in res[best][1][:20]:
         ctx.drift.append(dr)
         vf.log("model drift (full-spec conformance):", str(dr)[:400])
 
